@@ -120,10 +120,11 @@ PROPS["C06"] = {
         "special": lambda ctx: __import__("c06").special(ctx),
         "trusted": ["core::fmt::Formatter::pad_integral modelled from std's source (NB.Radix.padIntegral); cross-checked in-process against std's own formatting of u128/i128",
                     "core::str::from_utf8 modelled as the Unicode table 3-7 automaton (NB.Radix.utf8Valid)",
-                    "general-radix paths: BigUint-by-digit mul-add / div_rem_digit / div_rem / squaring at value level (Nat), justified by C02/C03; chunk and loop structure, u8/u64 truncations as in the source"],
+                    "general-radix OUTPUT path (to_radix_digits_le): digit level throughout — div_rem_digit, div_rem_ref (Knuth D), mulRef (mac3), cmp_slice are the C02/C03 models on digit vectors (NB.Model.RadixD, run by the driver; refinement theorems to_radix_le_refines & co. under P.ValidMul); the value-level NB.Model.Radix version is the intermediate layer of the proof only",
+                    "general-radix INPUT path: the Horner loop is on the digit vector (mac_with_carry sweep + add2); chunk and loop structure, u8/u64 truncations as in the source"],
         "assumptions": COMMON_ASSUME,
-        "level_text": "Theorems to_radix_le_spec/_outcome, to_radix_be_spec, bigint_to_radix_le_spec, from_radix_le_spec/_outcome, from_radix_be_spec, bigint_from_radix_spec, from_to_radix, to_from_radix, to_str_spec, bigint_to_str_spec, to_str_alphabet, from_str_radix_u_spec, from_str_radix_i_spec, parse_iff_u, parse_iff_i, parse_bytes_u_spec, parse_bytes_i_spec, parse_to_str_u, parse_to_str_i, fmt_triple_spec, radix_base_spec, big_chunk_spec, horner_step_exact: for ALL canonical values, ALL radices and ALL byte strings / digit slices the model of every code path (exact- and inexact-width bit regrouping, chunked Horner input on the digit vector, chunked division output incl. the big-base super-chunk path for every threshold, sign/underscore/digit validation, UTF-8 gate) returns exactly Nat.digits / the canonical value of Nat.ofDigits / the denotation of the grammar, errors exactly for ill-formed input, panics exactly for a radix outside 2..=36 / 2..=256, and parsing emitted text returns the original value. Nothing is _partial. The model is tied to the source by the regenerated big-base threshold and a 3-way differential run (release and debug profiles) over all radices, chunk-length residues, 63/64/65-digit values, grammar-aware text mutants and a 40-entry format table that the harness also cross-checks against std's own u128/i128 formatting.",
-        "level_note": "Trusted: Lean kernel + {propext, Classical.choice, Quot.sound}; Formatter::pad_integral and str::from_utf8 are modelled from std (not proved); div_rem_digit, div_rem and BigUint squaring inside to_radix_digits_le are at value level (Nat) — their exactness is C02/C03; Vec/ownership not modelled; correspondence strength bounded by the generators (probe RADIX_BIGBASE hit is enforced).",
+        "level_text": "Theorems to_radix_le_spec/_outcome, to_radix_be_spec, bigint_to_radix_le_spec, from_radix_le_spec/_outcome, from_radix_be_spec, bigint_from_radix_spec, from_to_radix, to_from_radix, to_str_spec, bigint_to_str_spec, to_str_alphabet, from_str_radix_u_spec, from_str_radix_i_spec, parse_iff_u, parse_iff_i, parse_bytes_u_spec, parse_bytes_i_spec, parse_to_str_u, parse_to_str_i, fmt_triple_spec, radix_base_spec, big_chunk_spec, horner_step_exact: for ALL canonical values, ALL radices and ALL byte strings / digit slices the model of every code path (exact- and inexact-width bit regrouping, chunked Horner input on the digit vector, chunked division output incl. the big-base super-chunk path for every threshold, sign/underscore/digit validation, UTF-8 gate) returns exactly Nat.digits / the canonical value of Nat.ofDigits / the denotation of the grammar, errors exactly for ill-formed input, panics exactly for a radix outside 2..=36 / 2..=256, and parsing emitted text returns the original value. LAYER LINK: the driver's model column runs the digit-level definition NB.Model.RadixD (to_radix_digits_le on digit vectors with divRemDigit / divRemRef / Mul.mulRef / cmpSlice, every operator panic propagated, both while-loops fuelled with BITS*len iterations); to_radix_digits_le_refines, to_radix_le_refines, bigint_to_radix_refines, format_refines, slow_loop_refines, square_loop_refines, big_loop_refines, radix_fuel_sufficient prove it equal to the value-level model on canonical operands for every P with P.ValidMul, and to_radix_leD_spec/_outcome, to_radix_beD_spec, bigint_to_radixD_spec, big_chunkD_spec, from_to_radixD, to_from_radixD, to_strD_spec, bigint_to_strD_spec, to_strD_outcome, parse_to_strD_u/i, fmt_tripleD_spec, formatD_spec, to_radixD_no_internal, gen_to_radix_leD_spec, gen_to_strD_spec, gen_formatD_spec, drv_model_is_digit_level, drv_model_column_spec restate the output theorems about it and about the driver's model column (no operator panic, assertion or fuel exhaustion reachable). Nothing is _partial. The model is tied to the source by the regenerated big-base threshold and a 3-way differential run (release and debug profiles) over all radices, chunk-length residues, 63/64/65-digit values, grammar-aware text mutants and a 40-entry format table that the harness also cross-checks against std's own u128/i128 formatting.",
+        "level_note": "Trusted: Lean kernel + {propext, Classical.choice, Quot.sound}; Formatter::pad_integral and str::from_utf8 are modelled from std (not proved); div_rem_digit, div_rem, BigUint squaring and comparison inside to_radix_digits_le are the digit-level C02/C03 models (NB.Model.RadixD, proved equal to the value-level layer under P.ValidMul = C02's obligation gen_params_valid_mul); usize overflow of big_power and the Vec capacity estimate are not modelled; Vec/ownership not modelled; correspondence strength bounded by the generators (probe RADIX_BIGBASE hit is enforced).",
     }
 
 PROPS["C08"] = {
